@@ -28,6 +28,13 @@ CHECKS = {
   "assumed: byte-level ghost file model and step contracts of (*os.File).WriteAt/Truncate, io.ReadAll/io.Copy on a *File, os.OpenFile; t does not modify its argument or the file (callee clause); "
   "linearizability of concurrent Read/Write/Transform is NOT decided by contracts: it follows on paper from the proved lock discipline plus flock exclusion (two-phase locking); Write's contents are left abstract (io.Copy)",
   "contract-based deductive verification with a single-failure ghost budget over atomic file steps (all failure points and length relations at once), closure contracts, call-site typestate obligations; z3/cvc5"),
+ "C05": ("5 C05",
+  "Lookup side of the property, for arbitrary bytes in the index entry and data file: every index/slice expression of get (176-byte buffer, four re-slicings, two hex.Decode calls whose length precondition is checked) is in bounds, "
+  "so no lookup panics; every error returned by get/Get/GetBytes/GetFile is the not-found error type; get succeeds only on a record of exactly the specified size with the specified header/separator bytes, "
+  "whose decoded action id equals the requested id, and with non-negative size and time; GetBytes returns data only when sha256(data) equals the reported OutputID; GetFile returns a name only when the file's length equals the reported size.",
+  "assumed: extern contracts for io.ReadFull, encoding/hex.Decode, strconv.ParseInt, crypto/sha256.Sum256 (uninterpreted, deterministic), os.Stat/ReadFile/Open; [32]byte values compare as whole arrays. "
+  "NOT decided by this check: the store side (Put then Get returns exactly the data; repair of a damaged output) — put/copyFile/putIndexEntry are not yet under contract, see C12/C11 in not_applicable",
+  "contract-based deductive verification: safety and functional postconditions over go/ssa with ghost bindings of the read buffer; z3/cvc5"),
  "C13": ("5 C13",
   "Contracts over ghost mtimes, a monotone clock and integer nanoseconds: used() leaves an existing file's mtime younger than (now - 1h) when no file operation fails; OutputFile calls it on the name it returns; "
   "trimSubdir calls os.Remove only on Join(subdir, n) for listed names n ending in -a/-d whose mtime is before the cutoff (call-site obligation) and, when nothing fails, removes every such name (loop invariant); "
